@@ -246,7 +246,8 @@ func c20Set(c *Ctx) {
 				continue
 			}
 			s := Render(st.Val)
-			m := regexp.MustCompile(`^append\(p0\.items\[:(.+)\], p0\.items\[\((.+) \+ 1\):\]\)$`).FindStringSubmatch(s)
+			fq := regexp.QuoteMeta(c20Items)
+			m := regexp.MustCompile(`^append\(p0\.` + fq + `\[:(.+)\], p0\.` + fq + `\[\((.+) \+ 1\):\]\)$`).FindStringSubmatch(s)
 			guarded := false
 			for _, dc := range DomConds(st) {
 				x, y, okq := eqCond(dc)
@@ -428,6 +429,7 @@ func c20Groups(c *Ctx) {
 		fn     *ssa.Function
 		fields map[string]string
 		eqKey  string
+		eqFn   *ssa.Function
 	}
 	var ctors []ctor
 	for _, n := range p.NamedTypes() {
@@ -455,22 +457,8 @@ func c20Groups(c *Ctx) {
 				ct.fields[fieldNameOf(fa)] = Render(st.Val)
 			}
 		}
-		// equality closure
-		for _, an := range fn.AnonFuncs {
-			if len(an.Params) == 2 {
-				var parts []string
-				for _, r := range Returns(an) {
-					rv := RetVals(r)[0]
-					if k, ok := rv.(*ssa.Const); ok {
-						parts = append(parts, "const:"+k.Value.String())
-					} else {
-						parts = append(parts, Render(rv))
-					}
-				}
-				sort.Strings(parts)
-				ct.eqKey = strings.Join(parts, " ; ")
-			}
-		}
+		// equality function: what is handed to NewUniqueSet here, or to the shared group constructor this NewGroup calls
+		ct.eqFn = c20EqualityOf(p, fn)
 		ctors = append(ctors, ct)
 	}
 	c.Check(len(ctors) == 3, "group-constructors", "NewGroup implementations", "-", "tcp, udp, icmp", fmt.Sprintf("expected 3 NewGroup implementations, found %d", len(ctors)))
@@ -512,28 +500,198 @@ func c20Groups(c *Ctx) {
 				c.Check(got == want, "group-constructors", ct.name+".NewGroup "+f, p.Pos(ct.fn.Pos()), "", "KnockGroup."+f+" is filled from "+got)
 			}
 		}
-		// element equality: both operands asserted to this knock type; port knocks compare DestinationPort
-		eq := ct.eqKey
+		// element equality: `true` only when both operands are of this knock type and, for port knocks, have the same
+		// destination port – decided leaf by leaf on the function's result (constants, comparisons, short-circuit phis)
 		wantType := ct.name
-		okEq := strings.Contains(eq, "const:false")
-		if strings.Contains(ct.name, "Port") {
-			okEq = okEq && strings.Contains(eq, "p0.("+"canary."+wantType+")") && strings.Contains(eq, ".DestinationPort == ") && strings.Contains(eq, "p1.("+"canary."+wantType+")")
-		} else {
-			okEq = okEq && strings.Contains(eq, "const:true")
+		why := c20ElementEquality(ct.eqFn, wantType, strings.Contains(ct.name, "Port"))
+		c.Check(why == "", "group-element-equality", ct.name+" set equality", p.Pos(ct.fn.Pos()), "both operands of this knock type"+map[bool]string{true: " with equal destination ports", false: ""}[strings.Contains(ct.name, "Port")], "the element equality of "+ct.name+" groups is not `both are "+wantType+" and have the same destination port`: "+why)
+	}
+}
+
+// c20EqualityOf: the function given to NewUniqueSet in fn, directly or through an in-repo constructor fn hands it to.
+func c20EqualityOf(p *Program, fn *ssa.Function) *ssa.Function {
+	asFn := func(v ssa.Value) *ssa.Function {
+		switch x := Unwrap(v).(type) {
+		case *ssa.MakeClosure:
+			f, _ := x.Fn.(*ssa.Function)
+			return f
+		case *ssa.Function:
+			return x
 		}
-		c.Check(okEq, "group-element-equality", ct.name+" set equality", p.Pos(ct.fn.Pos()), eq, "the element equality of "+ct.name+" groups is not `both are "+wantType+" and have the same destination port`: "+eq)
-		// the type guards: each `return false` under a failed assertion to this type
-		for _, an := range ct.fn.AnonFuncs {
-			for _, b := range an.Blocks {
-				for _, in := range b.Instrs {
-					if ta, ok := in.(*ssa.TypeAssert); ok && ta.CommaOk {
-						n := NamedOf(ta.AssertedType)
-						c.Check(n != nil && n.Obj().Name() == wantType, "group-element-equality", ct.name+" guard type", p.InstrPos(ta), "", "the equality of "+ct.name+" groups guards on a different knock type")
+		return nil
+	}
+	for _, call := range Calls(fn) {
+		f := call.Common().StaticCallee()
+		if f == nil {
+			continue
+		}
+		if f.Name() == "NewUniqueSet" && len(call.Common().Args) == 1 {
+			if ef := asFn(call.Common().Args[0]); ef != nil {
+				return ef
+			}
+		}
+		if InRepo(f) && f.Blocks != nil && f != fn {
+			for _, c2 := range Calls(f) {
+				if f2 := c2.Common().StaticCallee(); f2 != nil && f2.Name() == "NewUniqueSet" && len(c2.Common().Args) == 1 {
+					if pr, ok := Unwrap(c2.Common().Args[0]).(*ssa.Parameter); ok {
+						if i := paramIdx(pr); i >= 0 && i < len(call.Common().Args) {
+							if ef := asFn(call.Common().Args[i]); ef != nil {
+								return ef
+							}
+						}
 					}
 				}
 			}
 		}
 	}
+	return nil
+}
+
+// c20ElementEquality returns "" when every way eq can yield true has both parameters asserted to wantType (and, if
+// ports, compares their DestinationPort fields), and eq can yield false; otherwise the reason.
+func c20ElementEquality(eq *ssa.Function, wantType string, ports bool) string {
+	if eq == nil || len(eq.Params) != 2 {
+		return "no two-argument equality function found"
+	}
+	// which side an asserted value belongs to
+	sideOf := func(v ssa.Value) int {
+		for d := 0; d < 6; d++ {
+			switch x := v.(type) {
+			case *ssa.Extract:
+				v = x.Tuple
+				continue
+			case *ssa.TypeAssert:
+				if n := NamedOf(x.AssertedType); n == nil || n.Obj().Name() != wantType {
+					return -2
+				}
+				switch x.X {
+				case ssa.Value(eq.Params[0]):
+					return 0
+				case ssa.Value(eq.Params[1]):
+					return 1
+				}
+				return -1
+			case *ssa.UnOp:
+				v = x.X
+				continue
+			case *ssa.FieldAddr:
+				v = x.X
+				continue
+			case *ssa.Field:
+				v = x.X
+				continue
+			case *ssa.Alloc:
+				if sv := StoredValues(x); len(sv) == 1 {
+					v = sv[0]
+					continue
+				}
+			}
+			break
+		}
+		return -1
+	}
+	asserted := func(conds []Cond, at *ssa.BasicBlock) [2]bool {
+		var got [2]bool
+		for _, dc := range conds {
+			if ex, ok := dc.V.(*ssa.Extract); ok && ex.Index == 1 && dc.Pol {
+				if sd := sideOf(ex); sd >= 0 {
+					got[sd] = true
+				}
+			}
+		}
+		// plain assertions executed on the way (they panic unless the type matches)
+		for _, b := range eq.Blocks {
+			for _, in := range b.Instrs {
+				if ta, ok := in.(*ssa.TypeAssert); ok && !ta.CommaOk && at != nil && b.Dominates(at) {
+					if sd := sideOf(ta); sd >= 0 {
+						got[sd] = true
+					}
+				}
+			}
+		}
+		return got
+	}
+	sawFalse := false
+	for _, r := range Returns(eq) {
+		for _, lf := range phiLeaves(RetVals(r)[0]) {
+			conds := condsOnLeaf(lf, r)
+			at := r.Block()
+			if lf.pred != nil {
+				at = lf.pred
+			}
+			if k, ok := lf.v.(*ssa.Const); ok {
+				if k.Value != nil && k.Value.String() == "false" {
+					sawFalse = true
+					continue
+				}
+				if ports {
+					return "it can answer `true` without comparing ports"
+				}
+				if got := asserted(conds, at); !got[0] || !got[1] {
+					return "it can answer `true` without both operands being " + wantType
+				}
+				continue
+			}
+			// `return ok1 && ok2`: the leaf is the success flag of an assertion itself
+			if ex, ok := lf.v.(*ssa.Extract); ok && ex.Index == 1 && !ports {
+				if sd := sideOf(ex); sd >= 0 {
+					got := asserted(conds, at)
+					got[sd] = true
+					if got[0] && got[1] {
+						sawFalse = true // the flag is false when the operand is of another type
+						continue
+					}
+				}
+				return "it can answer `true` without both operands being " + wantType
+			}
+			bo, ok := lf.v.(*ssa.BinOp)
+			if !ok || bo.Op != token.EQL || !ports {
+				return "its result `" + RenderN(lf.v, 3) + "` is neither a constant nor a port comparison"
+			}
+			sx, sy := sideOf(bo.X), sideOf(bo.Y)
+			if !(strings.Contains(Render(bo.X), "DestinationPort") && strings.Contains(Render(bo.Y), "DestinationPort") && sx >= 0 && sy >= 0 && sx != sy) {
+				return "it does not compare the destination ports of its two operands: " + RenderN(bo, 3)
+			}
+			// the comparison is only meaningful when both assertions held; a comma-ok assertion that failed leaves a zero
+			// value, so its success must be known here
+			if got := asserted(conds, at); !got[0] || !got[1] {
+				// values obtained by plain assertions dominate their use by construction
+				if !(plainAssert(bo.X) && plainAssert(bo.Y)) {
+					return "ports are compared without both operands being known to be " + wantType
+				}
+			}
+			sawFalse = sawFalse || true
+		}
+	}
+	if !sawFalse {
+		return "it never answers false"
+	}
+	return ""
+}
+
+// plainAssert: v is (a field of) the result of a non-comma-ok type assertion.
+func plainAssert(v ssa.Value) bool {
+	for d := 0; d < 6; d++ {
+		switch x := v.(type) {
+		case *ssa.TypeAssert:
+			return !x.CommaOk
+		case *ssa.UnOp:
+			v = x.X
+		case *ssa.FieldAddr:
+			v = x.X
+		case *ssa.Field:
+			v = x.X
+		case *ssa.Alloc:
+			sv := StoredValues(x)
+			if len(sv) != 1 {
+				return false
+			}
+			v = sv[0]
+		default:
+			return false
+		}
+	}
+	return false
 }
 
 func c20Detector(c *Ctx) {
@@ -632,6 +790,19 @@ func c20Detector(c *Ctx) {
 					continue
 				}
 				lenS := Render(ms.Len)
+				// in a helper that is handed the set (knockPortLabels(k.Knocks)): what every call site passes
+				if cc, isCall := ms.Len.(*ssa.Call); isCall && len(cc.Call.Args) == 1 {
+					if pr, isP := cc.Call.Args[0].(*ssa.Parameter); isP {
+						idx := paramIdx(pr)
+						for _, g := range p.FuncsIn(canaryRel) {
+							for _, call := range Calls(g) {
+								if call.Common().StaticCallee() == an && idx < len(call.Common().Args) {
+									lenS = strings.Replace(lenS, "(p"+fmt.Sprint(idx)+")", "("+Render(call.Common().Args[idx])+")", 1)
+								}
+							}
+						}
+					}
+				}
 				c.Check(strings.Contains(lenS, "UniqueSet).Count(") && strings.Contains(lenS, ".Knocks"), "port-list", "sized by the set", p.InstrPos(ms), lenS, "the reported port list is not sized by the group's Knocks.Count(): "+lenS)
 			}
 		}
